@@ -153,7 +153,9 @@ class VersionedDataHandler:
             df["batch_margin"] = batch_margin
 
             # batch_margins should be between -1 and 1 (otherwise, there was a data entry issue and we will not use this unit)
-            if np.abs(batch_margin).max() > 1:
+            # a batch that takes votes away from a party is just as impossible, but when both parties lose votes (or one does
+            # and the other stands still) the quotient of the two negative differences lands inside [-1, 1] again
+            if np.abs(batch_margin).max() > 1 or (np.diff(results_dem) < 0).any() or (np.diff(results_gop) < 0).any():
                 return pd.DataFrame(
                     {
                         "percent_expected_vote": np.arange(101),
